@@ -437,6 +437,131 @@ fn random_shape(rng: &mut Rng, n: usize) -> Vec<(Option<usize>, Option<usize>)> 
     ch
 }
 
+
+// ---------------------------------------------------------------------------------------------
+// Real library nodes: RedeemNode / CommitNode DAGs from the program generator, under the library's
+// own trackers. The reference walks the Arc graph recursively with an explicit class function.
+
+fn lib_reference<N, K, F>(root: &simplicity::node::Node<N>, class: F) -> Vec<(usize, Option<usize>, Option<usize>)>
+where
+    N: simplicity::node::Marker,
+    K: std::hash::Hash + Eq + Clone,
+    F: Fn(&simplicity::node::Node<N>) -> Option<K>,
+{
+    // returns, per yielded item: (address of the node object, index of left child's class, index of right child's class)
+    use simplicity::dag::DagLike;
+    fn go<N, K, F>(n: &simplicity::node::Node<N>, class: &F, seen: &mut std::collections::HashMap<K, usize>, out: &mut Vec<(usize, Option<usize>, Option<usize>)>) -> usize
+    where
+        N: simplicity::node::Marker,
+        K: std::hash::Hash + Eq + Clone,
+        F: Fn(&simplicity::node::Node<N>) -> Option<K>,
+    {
+        // `None`: the policy gives this node no identity; every occurrence is its own class
+        let k = class(n);
+        if let Some(k) = &k {
+            if let Some(i) = seen.get(k) {
+                return *i;
+            }
+        }
+        let l = n.left_child().map(|c| go(c, class, seen, out));
+        let r = n.right_child().map(|c| go(c, class, seen, out));
+        // a child may have put this class in already only if the DAG had a cycle; it has none
+        let idx = out.len();
+        out.push((n as *const _ as usize, l, r));
+        if let Some(k) = k {
+            seen.insert(k, idx);
+        }
+        idx
+    }
+    let mut seen = std::collections::HashMap::new();
+    let mut out = Vec::new();
+    go(root, &class, &mut seen, &mut out);
+    out
+}
+
+fn lib_case(rng: &mut Rng, case: &mut Case) -> Outcome {
+    use crate::gen::{self, Family, GenParams};
+    use crate::prog::{self, Root};
+    use simplicity::dag::{DagLike, InternalSharing, MaxSharing, NoSharing};
+    use simplicity::node::{Commit, Redeem};
+    let fuel = rng.urange(2, 22);
+    let p = GenParams { family: *rng.pick(&[Family::None, Family::Core]), share_pct: *rng.pick(&[0u64, 15, 40]), dup_pct: *rng.pick(&[0u64, 10, 30]), ..GenParams::basic(fuel) };
+    let (a, b) = (crate::ty::unit(), crate::ty::unit());
+    let mut dag = gen::gen_program(rng, &p, &a, &b);
+    let typing = match crate::ast::infer(&dag, true, None) {
+        Ok(t) => t,
+        Err(_) => return Outcome::Inconclusive("generator".into()),
+    };
+    gen::retype_witnesses(&mut dag, &typing);
+    case.desc = crate::runner::truncate(&dag.render(), 2000);
+    case.hash = Some(crate::rng::hash_str(&case.desc));
+    let order = crate::ast::natural_order(&dag);
+    let has_hole = dag.nodes.iter().any(|o| matches!(o, crate::ast::Op::Disconnect(_, None)));
+    let check = |name: &str, got: Vec<(usize, Option<usize>, Option<usize>, usize)>, want: Vec<(usize, Option<usize>, Option<usize>)>| -> Result<(), (String, String)> {
+        if got.len() != want.len() {
+            return Err((format!("lib-count:{}", name), format!("{} items yielded, reference has {} classes", got.len(), want.len())));
+        }
+        for (i, (g, w)) in got.iter().zip(want.iter()).enumerate() {
+            if g.3 != i {
+                return Err((format!("lib-index:{}", name), format!("item {} carries index {}", i, g.3)));
+            }
+            if g.0 != w.0 {
+                return Err((format!("lib-order:{}", name), format!("item {} is another node object than the reference's first representative of that class", i)));
+            }
+            if g.1 != w.1 || g.2 != w.2 {
+                return Err((format!("lib-child-index:{}", name), format!("item {}: child indices ({:?},{:?}), reference ({:?},{:?})", i, g.1, g.2, w.1, w.2)));
+            }
+        }
+        Ok(())
+    };
+    if !has_hole {
+        if let Ok(wits) = prog::witness_values(&dag, rng, false) {
+            if let Ok(r) = prog::build_redeem(&dag, &order, &wits, None, Root::Program) {
+                let got = |it: Vec<simplicity::dag::PostOrderIterItem<&simplicity::RedeemNode>>| it.into_iter().map(|d| (d.node as *const _ as usize, d.left_index, d.right_index, d.index)).collect::<Vec<_>>();
+                let res = check("redeem/max", got(r.as_ref().post_order_iter::<MaxSharing<Redeem>>().collect()), lib_reference(r.as_ref(), |n| Some(n.ihr())))
+                    .and_then(|_| check("redeem/internal", got(r.as_ref().post_order_iter::<InternalSharing>().collect()), lib_reference(r.as_ref(), |n| Some(n as *const _ as usize))));
+                if let Err((s, d)) = res {
+                    return violated(s, format!("{} ; program {}", d, case.desc));
+                }
+                // without sharing: the unfolded tree, if small
+                let tree: usize = r.as_ref().post_order_iter::<NoSharing>().take(20_001).count();
+                if tree <= 20_000 {
+                    let want = lib_reference(r.as_ref(), |_| None::<usize>);
+                    if let Err((s, d)) = check("redeem/none", got(r.as_ref().post_order_iter::<NoSharing>().collect()), want) {
+                        return violated(s, format!("{} ; program {}", d, case.desc));
+                    }
+                    case.count("lib.redeem.unfolded");
+                }
+                let shared = r.as_ref().is_shared_as::<MaxSharing<Redeem>>();
+                let n_internal = r.as_ref().post_order_iter::<InternalSharing>().count();
+                let n_max = r.as_ref().post_order_iter::<MaxSharing<Redeem>>().count();
+                if shared != (n_internal == n_max) {
+                    return violated("lib-is-shared-as", format!("is_shared_as::<MaxSharing> = {} but {} objects vs {} identity classes ; program {}", shared, n_internal, n_max, case.desc));
+                }
+                case.count("lib.redeem");
+                if n_internal != n_max {
+                    case.count("lib.redeem.objects-exceed-classes");
+                }
+            }
+        }
+    }
+    if let Ok(c) = prog::build_commit(&dag, &order, None, Root::Program) {
+        let got = |it: Vec<simplicity::dag::PostOrderIterItem<&simplicity::CommitNode>>| it.into_iter().map(|d| (d.node as *const _ as usize, d.left_index, d.right_index, d.index)).collect::<Vec<_>>();
+        // commitment time: a class is the identity root where one exists, the object itself otherwise
+        let res = check("commit/max", got(c.as_ref().post_order_iter::<MaxSharing<Commit>>().collect()), lib_reference(c.as_ref(), |n| n.ihr()))
+        .and_then(|_| check("commit/internal", got(c.as_ref().post_order_iter::<InternalSharing>().collect()), lib_reference(c.as_ref(), |n| Some(n as *const _ as usize))));
+        if let Err((s, d)) = res {
+            return violated(s, format!("{} ; program {}", d, case.desc));
+        }
+        case.count("lib.commit");
+    }
+    if dag.len() >= 4 {
+        Outcome::Held
+    } else {
+        Outcome::Trivial
+    }
+}
+
 pub fn run(ctx: &Ctx) {
     let t = ctx.tier;
     let max_n = t.pick(7usize, 8usize);
@@ -466,6 +591,7 @@ pub fn run(ctx: &Ctx) {
             if checked == 0 { Outcome::Trivial } else { Outcome::Held }
         });
     }
+    ctx.run_sub("library-nodes", Plan::sample(t.pick(30_000, 1_000_000), 0.15), lib_case);
     ctx.run_sub("random-larger-shapes", Plan::sample(t.pick(20_000, 1_000_000), 0.15), |rng, case| {
         let n = rng.urange(8, 40);
         let ch = random_shape(rng, n);
